@@ -1,4 +1,5 @@
 mod chain;
+mod dbhist;
 mod pools;
 mod synchist;
 mod util;
@@ -69,6 +70,20 @@ fn main() {
             let p = arg(&args, "--script").expect("--script");
             let s: Value = serde_json::from_str(&std::fs::read_to_string(p).unwrap()).unwrap();
             emit(&mut out, synchist::run_orders(&s));
+        }
+        "db-commit" | "db-undo" | "db-ws" => {
+            let sqlite = args.iter().any(|a| a == "--sqlite");
+            let focus = &fam[3..];
+            for id in first..first + count {
+                // every other case runs on SQLite when asked for "both"
+                let sq = sqlite || (args.iter().any(|a| a == "--both") && id % 2 == 1);
+                emit(&mut out, dbhist::gen_db(seed, id, sq, focus, maxlen));
+            }
+        }
+        "dbhist-exec" => {
+            let p = arg(&args, "--script").expect("--script");
+            let s: Value = serde_json::from_str(&std::fs::read_to_string(p).unwrap()).unwrap();
+            emit(&mut out, dbhist::exec_db(&s));
         }
         "synchist-exec" => {
             let p = arg(&args, "--script").expect("--script");
